@@ -41,6 +41,10 @@ SCENARIOS.update({
     "check-verify-failure": ({"r.lua": 'local b = require("b")\nlocal a = require("a")\n'}, ["--check", "--verify", "--sort-requires", "r.lua"],
                              lambda r: ("exit status is %d, not 2, although output verification failed" % r["rc"] if r["rc"] != 2 else
                                         "file changed under --check" if clireplay.changed(r, "r.lua") else None)),
+    **{f"check-line-endings-only-{fmt}": ({"crlf.lua": "local a = 1\r\nlocal b = 2\r\n", "ok.lua": clireplay.FORMATTED}, ["--check", "--output-format", fmt, "crlf.lua", "ok.lua"],
+                                         lambda r: ("exit status is %d, not 1, for a file that differs from its formatted form in its line endings" % r["rc"] if r["rc"] != 1 else
+                                                    "file changed under --check" if clireplay.changed(r, "crlf.lua") else None))
+       for fmt in ("standard", "unified", "json", "summary")},
     "write-broken": ({"bad.lua": clireplay.BROKEN}, ["bad.lua"],
                      lambda r: ("exit status is %d, not 2, for an unparseable file" % r["rc"] if r["rc"] != 2 else None)),
 })
@@ -48,6 +52,7 @@ KIND2SCEN = dict(c14.KIND2SCEN)
 KIND2SCEN.update({"status-err": ["check-verify-failure", "check-broken", "check-broken-and-diff", "check-missing", "write-broken", "check-unreadable", "check-unreadable-and-diff"],
                   "status-diff": ["check-diff", "check-broken-and-diff"], "status-clean": ["check-clean"],
                   "diff-iff": ["check-diff", "check-clean"],
+                  "nodiff": ["check-line-endings-only-standard", "check-line-endings-only-unified", "check-line-endings-only-json", "check-line-endings-only-summary", "check-diff", "check-clean"],
                   "any": list(SCENARIOS)})
 
 
@@ -255,7 +260,7 @@ def run(ses, rep):
     rep.assumptions += [
         "log!(Level::Error, ..) reaches the closure registered in main (env_logger with filter >= Warn; STATIC_MAX_LEVEL = Trace)",
         "callee results are unconstrained (havoc) except the summaries listed; stdout/stderr writes may fail",
-        "the similar-based 'no change' test inside output_diff::* is outside the claim (create_diff's Some/None is symbolic)",
+        "similar's TextDiff is exact for the two texts it is given (the producers' own `no change` tests are decided by C18's nodiff kernels, run here too)",
     ]
     rep.outside += ["mtimes/'touched': implied by (a) if read_to_string does not modify the file",
                     "the text of the four output formats (C18)", "interleavings of the status updates (C19)",
@@ -282,6 +287,9 @@ def run(ses, rep):
     flagged += tail(ses, rep, funcs)
     flagged += diff_iff(ses, rep, funcs)
     flagged += error_propagation(ses, rep)
+    # the producers' own `nothing to report` tests decide the exit status as well (C18's kernels, shared)
+    from . import c18
+    flagged += [(oid, what, "nodiff") for oid, what, kind, info in c18.nodiff(ses, rep)]
     c14.confirm(rep, flagged, SCENARIOS, KIND2SCEN, "C13")
 
 
